@@ -31,17 +31,18 @@ RULE = (
     "Monitor 3: icontract invariants after every public operation of "
     "ReturnEdgeCache, BlockOrdering, ReferenceCache. non-trivial = apply() "
     "returned with >=1 edit and hook events observed; distinct = shape "
-    "signature (+ 'diff' when the differential ran)."
+    "signature (+ 'diff' when the differential ran). A quarter of the "
+    "scenarios also call retarget_symbol_uses(code label, code label) on "
+    "the same context (one at a time: a last context of its own)."
 )
 ASSUMPTIONS = [
-    "the differential is restricted to scenarios with at most one modification per original block, where original block handles and offsets stay valid for one-at-a-time application",
     "block-ordering ground truth: (interval start address, block offset), ties among zero-sized blocks not judged",
 ]
 BUDGET = {"quick": (3000, 45), "thorough": (80000, 540)}
 REQUIRED_COUNTERS = ["hook_events", "ordering_comparisons",
                      "return_edge_comparisons", "reference_comparisons",
                      "contract_evaluations", "differential_runs",
-                     "assembler_lookups"]
+                     "assembler_lookups", "contexts_that_also_retarget"]
 
 
 def setup_worker(tier):
